@@ -128,6 +128,10 @@ func checkC06(c *Ctx) {
 		place := make([]int, len(c06Features))
 		place[0], place[1] = p0, p1
 		var count, nontrivial, featNonLast int
+		// one long-lived Spec object whose content is replaced wholesale before every
+		// query: the answer must depend on the content only, not on earlier queries
+		reused := &specs.Spec{}
+		var prevFresh *specs.Spec
 		var rec func(f int)
 		rec = func(f int) {
 			if f == len(c06Features) {
@@ -160,6 +164,27 @@ func checkC06(c *Ctx) {
 				if got != want {
 					cs.Violation("minimum", map[string]string{"want": want, "got": got}, fmt.Sprintf("MinimumRequiredVersion = %s, features used require %s (n=%d placement=%v)", got, want, n, place), wit())
 					return
+				}
+				{
+					fresh := cloneSpec(s)
+					// two queries of the same object back to back, its content replaced in
+					// between by a new device slice of the same length (nothing else is
+					// inspected in between on this goroutine)
+					if prevFresh != nil && len(prevFresh.Devices) == len(fresh.Devices) {
+						reused.Version, reused.Kind, reused.Annotations, reused.ContainerEdits = prevFresh.Version, prevFresh.Kind, prevFresh.Annotations, prevFresh.ContainerEdits
+						reused.Devices = prevFresh.Devices
+						specs.MinimumRequiredVersion(reused)
+					}
+					prevFresh = cloneSpec(s)
+					reused.Version, reused.Kind, reused.Annotations, reused.ContainerEdits = fresh.Version, fresh.Kind, fresh.Annotations, fresh.ContainerEdits
+					reused.Devices = fresh.Devices // a new slice of the same length as the previous one
+					g, _ := specs.MinimumRequiredVersion(reused)
+					verr := specs.ValidateVersion(reused)
+					c.Count("queries_on_reused_spec_object", 1)
+					if g != want || (verr == nil) != (verIdx(reused.Version) >= verIdx(want)) {
+						cs.Violation("history-dependent", map[string]string{"want": want, "got": g}, fmt.Sprintf("on a Spec object that was queried before with other content: MinimumRequiredVersion = %s (ValidateVersion err=%v), the features now in it require %s (n=%d placement=%v)", g, verr, want, n, place), wit())
+						return
+					}
 				}
 				// permutation invariance
 				for _, pm := range perms[1:] {
